@@ -97,6 +97,24 @@ def registered(ctx):
                                    (r[0] == 'call' and r[1].is_(r'TracingSecretKey::generate_user_id$')) for r in src)
             ctx.check(ok, ri.key, 'returns own id or a generated one', 'refresh_id returns an identifier (line %d) that is neither the '
                       'caller\'s nor freshly generated' % st['ln'], 'id | generate_user_id(rng)?', ri.where(st['ln']))
+        # the caller's own identifier is handed back only when its level EQUALS the master key's (an identifier of any other
+        # length, shorter or longer, does not satisfy the tracing relation with the current tracers)
+        lvl_eq = []
+        for cmp_ in lib.comparisons(ri):
+            sa = backward_slice(ri, [cmp_['a']], follow_mutarg=False)
+            sb_ = backward_slice(ri, [cmp_['b']], follow_mutarg=False)
+            if sa.has_call(r'tracing_level$') and sb_.has_call(r'tracing_level$'):
+                if cmp_['op'] == 'Eq':
+                    lvl_eq.append(cmp_['te'])
+                elif cmp_['op'] == 'Ne':
+                    lvl_eq.append(cmp_['fe'])
+        for (b, st) in oks:
+            src = copy_chain_sources(ri, st['rv']['ops'][0], through_calls=(r'^std::ops::Try::branch$',) + IDENTITY_CALLS)
+            if src and all(r[0] == 'param' for r in src):
+                ctx.check(bool(lvl_eq) and ri.edges_dominate(lvl_eq, b), ri.key, 'own id returned <= levels equal',
+                          'refresh_id hands the caller\'s identifier back (line %d) without its tracing level being EQUAL to the master '
+                          'key\'s (an ordering test lets identifiers of the other length through): the refreshed key does not satisfy the '
+                          'tracing relation' % st['ln'], 'under id.tracing_level() == self.tracing_level()', ri.where(st['ln']))
         for m in muts:
             ctx.check(te is not None and ri.edge_dominates(te, m.b), ri.key, '%s <= is_known' % m.name,
                       'refresh_id mutates the known-users set (%s, line %d) before / without checking that the identifier is known'
@@ -265,7 +283,7 @@ def wire(ctx):
     """'This survives refreshes and serialization': users, tracers and ids round-trip."""
     from . import c13
     c13.restricted(ctx, r'(core::TracingSecretKey|core::TracingPublicKey|core::UserId|core::UserSecretKey|core::MasterSecretKey)$',
-                   [c13.agree, c13.fields, c13.order])
+                   [c13.agree, c13.fields, c13.order, c13.read_loop_keeps_every_element, c13.read_keeps_every_element])
 
 
 REORDERING = (r'^std::iter::Iterator::(rev|skip|step_by|skip_while|take_while|filter|filter_map|cycle|chain|flat_map|peekable|scan|nth|last)$',
